@@ -233,7 +233,7 @@ def _cref_calc(E, PM, A):
                      z3.BoolVal(st == "parser-error" and type(r) is err and r.filepath == "f.bitproto" and r.lineno == 9))
 
 
-@pproof("py:parser.precedence", "Parser.precedence", ["C13"], must=["post:table"],
+@pproof("py:parser.precedence", "Parser.precedence", ["C13", "C12"], must=["post:table"],      # C12: capacities written as expressions
         assumes=["PLY applies the `precedence` table and calls the action of the reduced production (external)"])
 def _prec(E, PM, A):
     """* and / bind tighter than + and -, all left-associative"""
